@@ -193,8 +193,12 @@ fn gen_op(r: &mut Rng, pool: &Pool, mode: &str) -> Op {
                 if cb && r.chance(15) {
                     op.m = 1 + r.below(op.x.as_array().unwrap().len() + 1) as i64;
                 }
-            } else if k < 92 {
+            } else if k < 90 {
                 op.op = "drop".into();
+            } else if k < 93 && live.len() > 1 {
+                op.op = "compare".into();
+                let others: Vec<usize> = live.iter().copied().filter(|&g| g != h).collect();
+                op.g = *r.pick(&others);
             } else {
                 let others: Vec<usize> = live.iter().copied().filter(|&g| g != h).collect();
                 if others.is_empty() {
